@@ -190,3 +190,12 @@ Proof.
   destruct (m url ip fp) as [a r] eqn:Em. cbn [fst].
   destruct a; cbn [negb]; [exact IH|]. rewrite Em. reflexivity.
 Qed.
+
+(* is_redirect (status.py), GeminiResponse.is_redirect / redirect_url (response.py) *)
+Lemma status_is_redirect_tie : forall z, gen_status_is_redirect z = Redirect.is_redirect z.
+Proof. intro z. reflexivity. Qed.
+Lemma response_is_redirect_tie : forall z, gen_response_is_redirect z = Redirect.is_redirect z.
+Proof. intro z. reflexivity. Qed.
+Lemma response_redirect_url_tie : forall z meta,
+  gen_response_redirect_url z meta = if Redirect.is_redirect z then Some meta else None.
+Proof. intros z meta. reflexivity. Qed.
